@@ -11,8 +11,8 @@ the lasso / the bad outcome.
 
 Binding: spec/MC_ReaderInputs.tla (TLC) enumerates the inputs; the harness
 renders them (class representatives, vlib/x_c20.render), adds every
-character-level prefix of every rendered valid document and expands the pump
-descriptors, reads each text through Tree.get / TreeList.get / DataSet.get /
+character-level prefix and every single-character deletion / blanking of every
+rendered valid document and expands the pump descriptors, reads each text through Tree.get / TreeList.get / DataSet.get /
 <X>CharacterMatrix.get / Tree.yield_from_files under the deterministic step
 budget and logs what happened.  spec/Trace_Readers.tla (TLC) judges every
 event: Terminates, NoInternalError, ErrorIsDataParseFamily, ResultWellFormed,
@@ -115,6 +115,23 @@ def load_cases(path, quick):
             cases.append(p)
             nprefix += 1
     per_kind["charprefix"] = nprefix
+    # local corruption at the character level: every single character deleted / overwritten by a blank
+    nedit = 0
+    for c in [c for c in cases if c["kind"] == "base"]:
+        text = x_c20.render(c["toks"])
+        seen_t = set([text])
+        for k in range(len(text)):
+            for kind, t in (("chardel", text[:k] + text[k + 1:]), ("charblank", text[:k] + " " + text[k + 1:])):
+                if t in seen_t:
+                    continue
+                seen_t.add(t)
+                p = dict(c)
+                p.pop("toks")
+                p.update({"kind": kind, "text": t, "cut": k})
+                p["entries"] = entries_for(p, base_has, quick)
+                cases.append(p)
+                nedit += 1
+    per_kind["charedit"] = nedit
     return cases, per_kind, len(raw)
 
 
@@ -206,8 +223,9 @@ def run(ctx):
         if only_docs:
             cases = [c for c in cases if c["doc"] in only_docs]
             ctx.assumptions.append("RESTRICTED development run: only documents %s%s" % (only_docs, ", reader models skipped" if nomodel else ""))
-        ctx.log("TLC generated %d inputs (%d after removing duplicates), + %d character-level prefixes: %s"
-                % (nraw, len(cases) - per_kind["charprefix"], per_kind["charprefix"], json.dumps(per_kind, sort_keys=True)))
+        ctx.log("TLC generated %d inputs (%d after removing duplicates), + %d character-level prefixes and %d single-character edits: %s"
+                % (nraw, len(cases) - per_kind["charprefix"] - per_kind["charedit"], per_kind["charprefix"], per_kind["charedit"],
+                   json.dumps(per_kind, sort_keys=True)))
         driven = ctx.drive(cases, run_case, chunksize=4)
     finally:
         th.join()
@@ -260,7 +278,7 @@ def run(ctx):
     ctx.rule = ("inputs enumerated by TLC (MC_ReaderInputs): %d base documents (NEXUS x9 block structures, Newick x3, PHYLIP x4, FASTA x2) "
                 "x every token-level truncation x every single edit (delete, insert/replace by a class representative, drop a span, insert a keyword), "
                 "all token strings up to the bound over the tree-statement alphabet, pump descriptors (1 token x 10/1100/3000)%s; "
-                "+ every character-level prefix of every rendered base document; each read through the applicable entry points. "
+                "+ every character-level prefix and every single-character deletion / blanking of every rendered base document; each read through the applicable entry points. "
                 "distinct_nontrivial = distinct (family, entry point, text) with text different from an unmodified base document"
                 % (per_kind.get("base", 0), "" if ctx.quick else ", random double edits (RandomSubset)"))
     ctx.exhaustive = not only_docs
